@@ -60,6 +60,7 @@ Basic ==
     Sc("resp-lazy-keep", r1(1, 1) \o stdin, << <<>> >>, <<>>, TRUE, << LazyProg >>, << Propagate >>),
     Sc("resp-part-keep", r1(1, 1) \o stdin, << <<>> >>, <<>>, TRUE, << PartProg >>, << Propagate >>),
     Sc("auth", r1(2, 1), << <<>> >>, <<>>, TRUE, << AuthProg >>, << Propagate >>),
+    Sc("idle-keep", r1(1, 1) \o stdin, << <<>> >>, <<>>, FALSE, << LazyProg >>, << Propagate >>),
     Sc("filter", r1(3, 0) \o stdin \o data, << <<>> >>, <<>>, FALSE, << FilterProg >>, << Propagate >>),
     Sc("filter-wr", r1(3, 1) \o stdin \o data, << <<>> >>, <<>>, TRUE, << FilterWr >>, << Propagate >>),
     Sc("two-keep",
@@ -112,6 +113,25 @@ Abort ==
     Sc("ab-filter", PreItems(Own, 3, 1, 0) \o << s3, s0, IStream(TData, Own, 2, 0), ab >> \o next, << <<>>, <<>> >>, <<>>, TRUE, << FilterProg, ReadAllRet >>, << Propagate, Propagate >>)
   }
 
+\* family "reads": every mix of direct and buffered reads, stream selection and writeable() (C09)
+Reads ==
+  LET fw == PreItems(Own, 3, 1, 0) \o << IStream(TStdin, Own, 3, 1), GVq, IStream(TStdin, Own, 1, 0), IStream(TStdin, Own, 0, 0),
+                                          IStream(TData, Own, 2, 0), UKq, IStream(TData, Own, 0, 0) >>
+      rw == PreItems(Own, 1, 0, 0) \o << IStream(TStdin, Own, 2, 0), UKq, IStream(TStdin, Own, 3, 0), IStream(TStdin, Own, 0, 0) >>
+      P1 == << OpRead(0), OpRead(1), OpReadAll(2), OpRead(5), OpSetStream(TData), OpReadAll(3), OpRead(1), OpWrite(TStdout, 1), OpRet(StOk("0")) >>
+      P2 == << OpFill, OpConsume(1), OpFill, OpConsume(64), OpFill, OpConsume(1), OpFill, OpWriteable, OpFill, OpConsume(64), OpFill, OpRet(StOk("0")) >>
+      P3 == << OpRead(1), OpSetStream(TData), OpReadAll(64), OpSetStream(TStdin), OpRead(1), OpRet(StOk("0")) >>
+      P4 == << OpWriteable, OpFill, OpConsume(1), OpReadAll(1), OpWrite(TStderr, 2), OpRet(StOk("0")) >>
+      P5 == << OpRead(2), OpFill, OpConsume(1), OpRead(64), OpRead(64), OpFill, OpSetStream(TData), OpRead(1), OpRet(StOk("0")) >>
+      P6 == << OpSetStream(TStdin), OpFill, OpSetStream(TStdin), OpRead(2), OpSetStream(TData), OpSetStream(TData), OpFill, OpConsume(1), OpReadAll(2), OpRet(StOk("0")) >>
+  IN { Sc("rd-filter-1", fw, << <<>> >>, <<>>, TRUE, << P1 >>, << Propagate >>),
+       Sc("rd-filter-2", fw, << <<>> >>, <<>>, TRUE, << P2 >>, << Propagate >>),
+       Sc("rd-filter-3", fw, << <<>> >>, <<>>, TRUE, << P3 >>, << Propagate >>),
+       Sc("rd-filter-4", fw, << <<>> >>, <<>>, TRUE, << P4 >>, << Propagate >>),
+       Sc("rd-filter-6", fw, << <<>> >>, <<>>, TRUE, << P6 >>, << Propagate >>),
+       Sc("rd-resp-5", rw, << <<>> >>, <<>>, TRUE, << P5 >>, << Propagate >>),
+       Sc("rd-resp-2", rw, << <<>> >>, <<>>, TRUE, << P2 >>, << Propagate >>) }
+
 WithFaults(S) ==
   S \cup UNION { UNION {
        (IF "eof" \in Faults THEN { [x EXCEPT !.fault = [k |-> "eof", at |-> o], !.tag = x.tag \o "+eof"] : o \in 0..x.w.len } ELSE {})
@@ -120,7 +140,8 @@ WithFaults(S) ==
        \cup (IF "wzero" \in Faults THEN { [x EXCEPT !.fault = [k |-> "wzero", at |-> o], !.tag = x.tag \o "+wzero"] : o \in {0, 3, 8, 16, 21, 24, 40} } ELSE {})
      } : x \in S }
 
-ScSet == WithFaults((IF "basic" \in Menu THEN Basic ELSE {}) \cup (IF "query" \in Menu THEN Query ELSE {}) \cup (IF "abort" \in Menu THEN Abort ELSE {}))
+ScSet == WithFaults((IF "basic" \in Menu THEN Basic ELSE {}) \cup (IF "query" \in Menu THEN Query ELSE {}) \cup (IF "abort" \in Menu THEN Abort ELSE {})
+                      \cup (IF "reads" \in Menu THEN Reads ELSE {}))
 ScSeq == TLCEval(SetToSeq(ScSet))
 
 \* ------------------------------------------------------------------ behaviour
@@ -236,8 +257,6 @@ EpilogueShape ==
 ReuseIff ==
   /\ c.ended = "reset" => AtEof(sc, c)
   /\ (c.pc = "Ended" /\ sc.fault.k = "none" /\ ~c.stop) => c.ended \in {"reset", "no-keepconn", "parse-error", "close-parse-error"}
-\* C12: nothing is written after a failed write, the connection ends
-FaultEnds == (sc.fault.k \in {"werr", "wzero"} /\ c.outw > sc.fault.at) => FALSE
 \* C14: no handler invocation begins after a shutdown request was seen by the task
 NoHandlerAfterStop == [][(c.stop /\ c.phase = "req") => c'.nreq = c.nreq]_vars
 =============================================================================
